@@ -54,6 +54,7 @@ type Contract struct {
 	LoopUses map[string][]Clause
 	Specialize map[string][]string
 	Inherited string // contract inherited from this (identical) repository package
+	LoopAssert map[string][]Clause // ghost assertions at the end of a loop body (proved, then assumed)
 }
 
 // LetClause: `let NAME = arg(CALLEE, occurrence, index)` or `ret(CALLEE, occurrence, index)` binds a
@@ -237,6 +238,11 @@ func (u *Universe) parseContractFile(path, pkgPath string, deps bool) error {
 					curC.Uses = append(curC.Uses, cl)
 				case "loopuse":
 					curC.LoopUses[p.loop] = append(curC.LoopUses[p.loop], cl)
+				case "loopassert":
+					if curC.LoopAssert == nil {
+						curC.LoopAssert = map[string][]Clause{}
+					}
+					curC.LoopAssert[p.loop] = append(curC.LoopAssert[p.loop], cl)
 				}
 			case curL != nil:
 				switch p.kind {
@@ -471,6 +477,10 @@ func (u *Universe) parseContractFile(path, pkgPath string, deps bool) error {
 			case "use":
 				s := body
 				pend = append(pend, pending{kind: "loopuse", loop: id, text: &s, line: where})
+				lastClause = pend[len(pend)-1].text
+			case "assert":
+				s := body
+				pend = append(pend, pending{kind: "loopassert", loop: id, text: &s, line: where})
 				lastClause = pend[len(pend)-1].text
 			default:
 				return fmt.Errorf("%s: bad loop clause kind %q", where, kind)
